@@ -133,6 +133,9 @@ def run(ref, body, args):
             if len(stats['samples']) < 6 and cur.trace:
                 stats['samples'].append(list(cur.trace))
         if TWIN and cur.nontrivial:
+            conc = _realize(args)
+            with island():
+                stats['samples'].append({'reached_with': repr(conc), 'trace': [str(t) for t in cur.trace]})
             return False
         return True
     if TWIN:
